@@ -14,6 +14,25 @@ def window (A : List (List α)) (s : Int) (n : Nat) (ch : List Int) : List (List
     ch.map fun c =>
       if 0 ≤ r ∧ r < (A.length : Int) ∧ c ≠ -1 then (A.getD r.toNat []).getD c.toNat 0 else 0
 
+/-- cell (row `i`, channel `c`) of that window -/
+def wcell (A : List (List α)) (s : Int) (n : Nat) (i : Nat) (c : Int) : α :=
+  let r : Int := s - (n / 2 : Nat) + i
+  if 0 ≤ r ∧ r < (A.length : Int) ∧ c ≠ -1 then (A.getD r.toNat []).getD c.toNat 0 else 0
+
+theorem window_eq_wcell (A : List (List α)) (s : Int) (n : Nat) (ch : List Int) :
+    window A s n ch = (List.range n).map fun i => ch.map (wcell A s n i) := rfl
+
+/-- what the store route has to return for one query spike whose sample is `s` and whose stored channel row
+is `stored`: the unit factor times the raw window on every query channel the store holds for the spike, zeros
+on the query channels it does not hold -/
+def lookupSpec (scale : α → α) (A : List (List α)) (s : Int) (n : Nat) (stored : List Int) (chq : List Nat) :
+    List (List α) :=
+  (List.range n).map fun i => chq.map fun (c : Nat) =>
+    if stored.contains (Int.ofNat c) then scale (wcell A s n i (Int.ofNat c)) else 0
+
+/-- cell-wise unit scaling of one waveform -/
+def scaleW (scale : α → α) (w : List (List α)) : List (List α) := w.map fun row => row.map scale
+
 /-- the recording is rectangular with `nch` channels -/
 def Rect (A : List (List α)) (nch : Nat) : Prop := ∀ row ∈ A, row.length = nch
 
